@@ -55,20 +55,24 @@ def cid_rows(spec):
         rows.append(["d", name, value])
     for field in spec["fields"]:
         rule, width, _, _, _ = FIELD_KINDS[field["type"]]
+        rule = field.get("rule", rule)
+        width = field.get("width", width)
         length = ""
         if fmt == "fixed":
             length = str(width)
+        elif "length" in field:
+            length = field["length"]
         elif field["type"] == "Text":
-            length = "1%s3" % sep
-        rows.append(["f", field["name"], "", "X" if field.get("empty") else "", length, field["type"],
-                     rule.format(sep=sep)])
+            length = "1{sep}3"
+        rows.append(["f", field["name"], field.get("example", ""), "X" if field.get("empty") else "",
+                     length.format(sep=sep), field["type"], rule.format(sep=sep)])
     for check in spec.get("checks", []):
         rows.append(["c"] + list(check))
     return rows
 
 
 def widths(spec):
-    return [FIELD_KINDS[field["type"]][1] for field in spec["fields"]]
+    return [field.get("width", FIELD_KINDS[field["type"]][1]) for field in spec["fields"]]
 
 
 def draw_cell(rng, field, fmt, bad_rate=0.15):
@@ -91,7 +95,10 @@ def draw_table(rng, spec, max_rows=8, bad_rate=0.15, ragged_rate=0.08):
     for _ in range(rng.randint(0, max_rows)):
         row = [draw_cell(rng, field, fmt, bad_rate) for field in spec["fields"]]
         if fmt != "fixed" and rng.random() < ragged_rate:
-            if rng.random() < 0.5 and len(row) > 1:
+            roll = rng.random()
+            if roll < 0.15 and fmt in ("delimited", "ods"):
+                row = []  # a blank line / a row element without cells: zero items
+            elif roll < 0.55 and len(row) > 1:
                 row = row[:-1]
             else:
                 row = row + [rng.choice(["extra", ""])]
@@ -158,6 +165,7 @@ class RefReader(object):
         self.verdicts = lib.cell_verdicts(cid_rows(spec), raw_rows)
         self._items = None
         self._end = None
+        self.snapshots = {}  # number of items produced -> {check description: distinct count so far}
         self.reached = {}  # check description -> list of row numbers that reached it
 
     def _compute(self):
@@ -202,6 +210,7 @@ class RefReader(object):
                 items.append(("err", rejected))
             else:
                 items.append(("row", list(row)))
+            self.snapshots[len(items)] = {description: len(values) for description, values in distinct.items()}
         end = None
         for description, kind, rule in checks:
             if kind == "DistinctCount":
@@ -218,10 +227,23 @@ class RefReader(object):
             self._compute()
         return self._items
 
-    def end_error(self):
+    def end_error(self, after_items=None):
+        """Description of the first DistinctCount check failing when the run is closed after the
+        first ``after_items`` items (None: after all of them), else None."""
         if self._items is None:
             self._compute()
-        return self._end
+        if after_items is None or after_items >= len(self._items):
+            return self._end
+        counts = {}
+        for produced in sorted(self.snapshots):
+            if produced <= after_items:
+                counts = self.snapshots[produced]
+        for description, kind, rule in self.spec.get("checks", []):
+            if kind == "DistinctCount":
+                _, op, threshold = rule.split()
+                if not OPERATORS[op](counts.get(description, 0), int(threshold)):
+                    return description
+        return None
 
     def data_row_count(self):
         return max(0, len(self.rows) - self.header)
@@ -293,3 +315,65 @@ def compare_items(expected, actual, file_name=None):
         return "items-extra", ["extra=" + actual[len(expected)][0]], "cutplace produced %d items, model %d: %r" % (
             len(actual), len(expected), actual[len(expected)])
     return None
+
+
+def verify_run(model, run, mode, api, file_name, features, result=None):
+    """Compare a finished lib.ReadRun (stepped to the end and closed) with the reference model under
+    error mode ``mode``.  Raises core.Violation on the first difference."""
+    from sim import core
+
+    items = model.items()
+    first_error = next((index for index, item in enumerate(items) if item[0] == "err"), None)
+    raised_item = None
+    if mode == "yield":
+        presented, consumed = items, len(items)
+    elif mode == "continue":
+        presented, consumed = [item for item in items if item[0] == "row"], len(items)
+    else:
+        if first_error is None:
+            presented, consumed = items, len(items)
+        else:
+            presented, consumed = items[:first_error], first_error + 1
+            raised_item = items[first_error]
+    difference = compare_items(presented, run.items, file_name)
+    if difference is not None:
+        rule, more, detail = difference
+        raise core.Violation(rule, features + more, detail)
+    expected_end = model.end_error(consumed)
+    raised = None if run.raised is None else ["err", lib.error_summary(run.raised)]
+    if raised_item is not None:
+        if raised is None:
+            raise core.Violation("raise-mode-did-not-raise", features, "model expects %r to be raised" % (raised_item,))
+        reason = item_mismatch(raised_item, raised, file_name)
+        if reason is not None:
+            raise core.Violation("raised-error-differs", features + ["kind=" + raised_item[1]["kind"], "api=" + api],
+                                 "%s; model=%r cutplace=%r" % (reason, raised_item, raised))
+        end_verdict = run.closed if api in ("Reader", "validate_rows") else None
+    else:
+        if api in ("Reader", "validate_rows"):
+            if raised is not None:
+                raise core.Violation("unexpected-exception", features + ["class=" + raised[1]["class"]],
+                                     "iteration raised %r, model expects none" % (raised,))
+            end_verdict = run.closed
+        else:
+            # cutplace.rows(): the generator closes its reader when it is exhausted, so the
+            # end-of-data verdict arrives as the exception (or not) of the last next()
+            end_verdict = "ok" if raised is None else run.raised
+    if end_verdict is not None:
+        if expected_end is None and end_verdict != "ok":
+            raise core.Violation("end-check-failed-unexpectedly", features + ["api=" + api],
+                                 "model: end checks pass; cutplace: %r" % (lib.error_summary(end_verdict),))
+        if expected_end is not None:
+            if end_verdict == "ok":
+                raise core.Violation("end-check-passed-unexpectedly", features + ["api=" + api],
+                                     "model: check %r fails at the end; cutplace: close() passed" % expected_end)
+            summary = lib.error_summary(end_verdict)
+            if not summary["is_data_error"]:
+                raise core.Violation("end-check-error-class", features + ["class=" + summary["class"]], repr(summary))
+    counters = run.counters()
+    if counters is not None and mode != "raise" and run.exhausted:
+        accepted = sum(1 for item in items if item[0] == "row")
+        if counters != [accepted, len(items) - accepted]:
+            raise core.Violation("counters", features + ["mode=" + mode],
+                                 "counters %r, model %r of %d data rows" % (counters, [accepted, len(items) - accepted], len(items)))
+    return expected_end
